@@ -1,5 +1,6 @@
 """C07 — composite fonts: segmentation, CID, Unicode follow CMap, ToUnicode, W/DW (W2/DW2)."""
 import io
+import os
 import random
 import struct
 
@@ -44,6 +45,7 @@ ASSUMPTIONS = [
 K_TU_CID = "tounicode-keyed-by-cid"
 K_ALIAS = "cid2unichr-alias"
 K_MISSING = "cid2unichr-missing"
+K_VCODES = "vertical-cmap-missing-codes"
 
 IDENT = {  # name -> (bytes per code, vertical)
     "Identity-H": (2, False), "Identity-V": (2, True), "DLIdent-H": (2, False), "DLIdent-V": (2, True),
@@ -187,6 +189,7 @@ def _cjk_eval(case):
     name, codec, coll = case["cmap"], case["codec"], case["coll"]
     base, wm = name.rsplit("-", 1)
     vertical = wm == "V"
+    vforms = bool(case.get("vforms"))
     cps = case["cps"] if "cps" in case else range(case["lo"], case["hi"])
     counts = {}
     bad, known_alias, known_missing, exc = [], [], [], []
@@ -203,9 +206,36 @@ def _cjk_eval(case):
         return Outcome(["cjk"], True, fail="loading %s / %s raised %s: %s" % (name, coll, type(e).__name__, e)), counts
     buf = bytearray()
     seq = []
+    if vforms:
+        # characters whose code the vertical CMap sends to another CID than the horizontal CMap (vertical
+        # presentation forms) and which extract correctly through the horizontal pair: the vertical pair
+        # (CMap-V, vertical collection map) must give the same character
+        try:
+            cmh = CMapDB.get_cmap(base + "-H")
+            umh = CMapDB.get_unicode_map(coll, False)
+        except Exception as e:
+            return Outcome(["cjk"], True, fail="loading %s-H raised %s: %s" % (base, type(e).__name__, e)), counts
+        sel = []
+        for cp in cps:
+            if 0xD800 <= cp < 0xE000:
+                continue
+            try:
+                b = chr(cp).encode(codec)
+            except UnicodeEncodeError:
+                continue
+            ch_, cv = _lookup_single(cmh, b), _lookup_single(cm, b)
+            if ch_ is None or cv is None or ch_ == cv:
+                continue
+            try:
+                if umh.get_unichr(ch_) != chr(cp):
+                    continue
+            except KeyError:
+                continue
+            sel.append(cp)
+        cps = sel
     for cp in cps:
         ch = chr(cp)
-        k = cls_of(cp)
+        k = "vform" if vforms else cls_of(cp)
         try:
             b = ch.encode(codec)
         except UnicodeEncodeError:
@@ -266,6 +296,118 @@ def _cjk_eval(case):
 
 
 # --------------------------------------------------------------------------
+# code -> CID tables of every predefined CMap against Adobe's cid2code.txt (shipped in <repo>/cmaprsrc)
+# --------------------------------------------------------------------------
+_C2C = {}
+
+
+def _cid2code(coll):
+    """{column: [(cid, [plain codes], [codes marked 'v'])]} parsed independently of tools/conv_cmap.py.
+    File format (its own header): tab-separated, first column CID, one column per CMap family, '*' = not
+    encoded, several codes comma-separated, suffix 'v' = the code as found in the -V CMap (the -V CMap is the
+    -H CMap with those codes overridden: Adobe's -V files are `/X-H usecmap` plus the overrides)."""
+    if coll not in _C2C:
+        import pdfminer
+
+        root = os.path.dirname(os.path.dirname(os.path.abspath(pdfminer.__file__)))
+        path = os.path.join(root, "cmaprsrc", "cid2code_%s.txt" % coll.replace("-", "_"))
+        cols = None
+        out = {}
+        with open(path, encoding="latin-1") as f:
+            for line in f:
+                line = line.split("#", 1)[0].rstrip("\r\n")
+                if not line.strip():
+                    continue
+                v = line.split("\t")
+                if cols is None:
+                    if v[0] != "CID":
+                        raise ValueError("unexpected header in %s" % path)
+                    cols = v
+                    for c in cols[1:]:
+                        out[c] = []
+                    continue
+                cid = int(v[0])
+                for c, val in zip(cols[1:], v[1:]):
+                    if val == "*":
+                        continue
+                    plain, vert = [], []
+                    for code in val.split(","):
+                        dst = plain
+                        if code.endswith("v"):
+                            code, dst = code[:-1], vert
+                        if len(code) % 2:
+                            code = "0" + code
+                        dst.append(bytes.fromhex(code))
+                    out[c].append((cid, plain, vert))
+        _C2C[coll] = out
+    return _C2C[coll]
+
+
+def _c2c_names(column):
+    if column.endswith("-H"):
+        return [(column, "H")]
+    if column == "H":
+        return [("H", "H"), ("V", "V")]
+    return [(column + "-H", "H"), (column + "-V", "V")]
+
+
+def _run_cid2code(case):
+    from pdfminer.cmapdb import CMapDB
+
+    coll, column, name, wm = case["coll"], case["column"], case["name"], case["wm"]
+    rows = _cid2code(coll)[column]
+    classes = ["cid2code", "cid2code:" + wm]
+    exp = {}
+    for cid, plain, vert in rows:
+        for code in plain:
+            exp[code] = cid
+    allowed_missing = set()
+    if wm == "V":
+        for cid, plain, vert in rows:
+            if vert:
+                allowed_missing.update(plain)
+        for cid, plain, vert in rows:
+            for code in vert:
+                exp[code] = cid
+                allowed_missing.discard(code)
+    try:
+        cm = CMapDB.get_cmap(name)
+        vflag = bool(cm.is_vertical())
+        got = {}
+
+        def walk(d, pre):
+            for k, v in d.items():
+                if isinstance(v, int):
+                    got[bytes(pre + [k])] = v
+                else:
+                    walk(v, pre + [k])
+
+        walk(cm.code2cid, [])
+    except Exception as e:
+        return Outcome(classes, True, fail="get_cmap(%r) raised %s: %s" % (name, type(e).__name__, e))
+    if vflag != (wm == "V"):
+        return Outcome(classes, True, fail="get_cmap(%r).is_vertical() = %r" % (name, vflag))
+    extra = sorted(k for k in got if k not in exp)
+    diff = sorted(k for k in exp if k in got and got[k] != exp[k])
+    miss = sorted(k for k in exp if k not in got)
+    if extra or diff:
+        return Outcome(classes, True, fail="%s vs cid2code column %s: %d codes not in Adobe's table %s, %d with another CID %s" % (
+            name, column, len(extra), [k.hex() for k in extra[:5]], len(diff),
+            [(k.hex(), got[k], exp[k]) for k in diff[:5]]))
+    bad = [k for k in miss if k not in allowed_missing]
+    if bad:
+        return Outcome(classes, True, fail="%s lacks %d codes of cid2code column %s: %s" % (
+            name, len(bad), column, [(k.hex(), exp[k]) for k in bad[:8]]))
+    if miss:
+        msg = "%s lacks %d codes that Adobe's %s maps (inherited unchanged from -H in rows that also list a 'v' code): %s" % (
+            name, len(miss), name, " ".join("<%s>->%d" % (k.hex(), exp[k]) for k in miss[:30]))
+        if K_VCODES in RUN.ACTIVE_KNOWN:
+            return Outcome(classes + ["known:" + K_VCODES], True, known=K_VCODES, fail=msg)
+        return Outcome(classes, True, fail=msg)
+    return Outcome(classes, True, sample={"cmap": name, "codes": len(exp)})
+
+
+# --------------------------------------------------------------------------
 # the oracle
 # --------------------------------------------------------------------------
 def _segment(font, data, text=None):
@@ -316,6 +458,8 @@ def run_case(case):
         return _cjk_eval(case)[0]
     if mode == "decode":
         return _run_decode(case)
+    if mode == "cid2code":
+        return _run_cid2code(case)
     return _run_doc(case)
 
 
@@ -727,6 +871,7 @@ def plan(tier):
     for base, codec, coll in EXTRA_PAIRS:
         specs.append({"kind": "predef", "base": base, "codec": codec, "coll": coll, "n": 0, "only": "kana"})
     specs += [{"kind": "decode", "n": 1500 if q else 20000} for _ in range(2)]
+    specs += [{"kind": "cid2code", "coll": c} for c in CJK_COLLS]
     return specs
 
 
@@ -736,6 +881,12 @@ def run_shard(spec, ctx):
         return hyp_search(ctx, ident_cases(), run_case, spec["n"])
     if k == "decode":
         return hyp_search(ctx, decode_cases(), run_case, spec["n"])
+    if k == "cid2code":
+        cases = [{"mode": "cid2code", "coll": spec["coll"], "column": col, "name": name, "wm": wm}
+                 for col in _cid2code(spec["coll"]) for name, wm in _c2c_names(col)]
+        res = enum_search(ctx, cases, run_case, stop_after=3)
+        res.extra["cid2code_exhaustive"] = "every code of every CMap column of cmaprsrc/cid2code_*.txt (all predefined CMaps)"
+        return res
     # predefined CMap shard: exhaustive class blocks for -H and -V, then document-level cases
     res = ShardResult()
     base, codec, coll = spec["base"], spec["codec"], spec["coll"]
@@ -752,6 +903,16 @@ def run_shard(spec, ctx):
             if out.fail and not out.known:
                 res.failures.append((case, out.fail))
                 return res
+    if not base.endswith("-UCS2") and not spec.get("only"):
+        case = {"mode": "cjk", "cmap": base + "-V", "codec": codec, "coll": coll, "lo": 0x20, "hi": 0x10000, "vforms": 1}
+        out, counts = _cjk_eval(case)
+        res.record(case, out)
+        for ck, v in counts.items():
+            key = "cjk[%s/%s] %s" % (base, codec, ck)
+            res.extra[key] = res.extra.get(key, 0) + v
+        if out.fail and not out.known:
+            res.failures.append((case, out.fail))
+            return res
     res.extra["cjk_exhaustive"] = ("every code point of kana 3040-30FF, hangul AC00-D7A3, unified ideographs 4E00-9FFF x "
                                    "each listed CMap (-H and -V) x its codec, in both tiers")
     if spec["n"]:
